@@ -360,7 +360,12 @@ pub fn plan(property: &str, tier: &str) -> Option<CheckSpec> {
             gc.max_parents = 1;
             gc.max_len = if quick { 3 } else { 4 };
             let nconc = b.add_concurrent(&gc, &[true, false], 2, &rules, if quick { 1 } else { 2 });
-            rule_text = format!("attachment scenarios x both configurations x all schedules up to the preemption bound, plus {nconc} generated concurrent two-thread programs (preemptions <= 2), plus {n1} + {n2} generated programs (attachments at creation, by handle, through the local parent) x all placements of atomic collector cycles, plus a string alphabet (empty, duplicate key, 2- and 4-byte UTF-8, 1 KiB) through every route");
+            let ls = local_sequence_programs(if quick { 5 } else { 6 });
+            let nls = ls.len();
+            for c in [false, true] {
+                b.add_batch(ls.clone(), c, false, &rules);
+            }
+            rule_text = format!("{nls} well-nested sequences of local operations (enter / leave / property / event) in one scope; attachment scenarios x both configurations x all schedules up to the preemption bound, plus {nconc} generated concurrent two-thread programs (preemptions <= 2), plus {n1} + {n2} generated programs (attachments at creation, by handle, through the local parent) x all placements of atomic collector cycles, plus a string alphabet (empty, duplicate key, 2- and 4-byte UTF-8, 1 KiB) through every route");
             bound_text = format!("scenarios: preemptions <= {bound}; generated: <= {} spans, <= {} attachments, <= {} operations", g.max_spans, g.max_attach, g.max_len);
         }
         "C08" => {
